@@ -195,8 +195,15 @@ func genC08(tier string, seed uint64, emit0 func(string)) {
 		}
 	}
 	pws := []string{"secret", "S3cr3t!", "pass word", "p\r\nq", "a"}
+	// a command wrapped in outer arrays is descended into and executed like the command itself: the same gate applies
+	nest := func(id, depth int, args ...[]byte) sysStep {
+		st := mkStep(id, nil, args...)
+		st.raw = append([]byte(strings.Repeat("*1\r\n", depth)), st.raw...)
+		return st
+	}
 	probe := func(id int) []sysStep {
-		return []sysStep{mkStep(id, nil, []byte("PING")), mkStep(id, nil, []byte("GET"), []byte("k"))}
+		return []sysStep{mkStep(id, nil, []byte("PING")), mkStep(id, nil, []byte("GET"), []byte("k")),
+			nest(id, 1, []byte("PING")), nest(id, 1, []byte("SET"), []byte("k"), []byte("smuggled")), nest(id, 3, []byte("GET"), []byte("k"))}
 	}
 	for _, pw := range pws {
 		pw := pw
@@ -369,6 +376,15 @@ func genC13(tier string, seed uint64, emit0 func(string)) {
 			interleavings([][]sysStep{p0, p1}, func(s []sysStep) { emit(sysLine(2, nil, "r b:76", s)) })
 		}
 	}
+	// one connection reconfigures the server (CONFIG SET, also requirepass) while others are connected and have not sent
+	// anything yet: what a connection may do is decided by its own history, not by what another one configured meanwhile
+	for _, param := range []string{"requirepass", "port", "x"} {
+		cs := mkStep(0, nil, []byte("CONFIG"), []byte("SET"), []byte(param), []byte("hunter2"))
+		for _, first := range [][]sysStep{{sel(1, 3), data(1)}, {data(1), sel(1, 2)}, {mkStep(1, nil, []byte("PING")), data(1)}} {
+			emit(sysLine(2, nil, "r b:76", append([]sysStep{cs}, first...)))
+			emit(sysLine(3, nil, "r b:76", append(append([]sysStep{data(2), cs}, first...), data(2), data(0))))
+		}
+	}
 	n := 400
 	if tier == "thorough" {
 		n = 20000
@@ -389,6 +405,8 @@ func genC13(tier string, seed uint64, emit0 func(string)) {
 			case 2:
 				if pwp != nil {
 					sched = append(sched, mkStep(id, nil, []byte("AUTH"), []byte(pw)))
+				} else if r.Chance(1, 3) {
+					sched = append(sched, mkStep(id, nil, []byte("CONFIG"), []byte("SET"), []byte([]string{"requirepass", "x"}[r.Intn(2)]), []byte("hunter2")))
 				}
 			case 3:
 				if pwp != nil {
@@ -420,6 +438,7 @@ func oracleC13(pw *string, sched []sysStep, events []string) (string, []string) 
 		conns[s.id] = true
 	}
 	tags = append(tags, fmt.Sprintf("conns%d", len(conns)))
+	hcSeen := map[int]bool{} // the request in progress on a connection reached the handler (an error may then be the handler's)
 	for _, e := range events {
 		colon := strings.IndexByte(e, ':')
 		id, _ := strconv.Atoi(e[1:colon])
@@ -436,10 +455,23 @@ func oracleC13(pw *string, sched []sysStep, events []string) (string, []string) 
 			if pw != nil && !authed[id] {
 				wantAuth = "0"
 			}
+			hcSeen[id] = true
 			if f[0] != strconv.Itoa(db[id]) || f[1] != wantAuth || f[2] != "own" {
 				return fmt.Sprintf("fail:handler call on connection %d saw state %s, its own history says db=%d auth=%s own", id, body[at+1:], db[id], wantAuth), tags
 			}
 		case strings.HasPrefix(body, "wr:"):
+			// whether a connection is served depends on its own history: on a server started without a password, or
+			// after its own exact AUTH, a well-formed data command is not refused - whatever other connections
+			// configured or presented meanwhile (the double answers data commands with a bulk string, never an error)
+			if len(cur.argv) > 0 && cur.argv[0] != nil && body == "wr:E" && (pw == nil || authed[id]) {
+				switch name := strings.ToUpper(string(cur.argv[0])); {
+				case (name == "GET" && len(cur.argv) == 2) || (name == "LLEN" && len(cur.argv) == 2) || (name == "HGET" && len(cur.argv) == 3) ||
+					(name == "SET" && len(cur.argv) == 3) || (name == "PING" && len(cur.argv) == 1):
+					if !hcSeen[id] {
+						return fmt.Sprintf("fail:%s on connection %d was refused although its own history (no password at connect / its own AUTH) authorizes it", name, id), tags
+					}
+				}
+			}
 			// the outcome of a one-argument AUTH depends on its own argument only - not on what this or any other
 			// connection sent before
 			if pw != nil && len(cur.argv) == 2 && cur.argv[0] != nil && strings.ToUpper(string(cur.argv[0])) == "AUTH" {
@@ -462,6 +494,7 @@ func oracleC13(pw *string, sched []sysStep, events []string) (string, []string) 
 			if len(pending[id]) > 0 {
 				pending[id] = pending[id][1:]
 			}
+			hcSeen[id] = false
 		}
 	}
 	return "ok", tags
